@@ -502,6 +502,17 @@ def gen_crps(rng, tier):
     return out
 
 
+def gen_crps_decomp(rng, tier):
+    out = []
+    vals = [0.0, 1.0, 2.0, 3.0, 0.5, 2.0]
+    for n in (1, 2, 3, 5):
+        for m in (1, 2, 3, 5):
+            for _ in range(5):
+                out.append([n, m, 0, rng.choice([0, 0, 1]), [rng.choice(vals) for _ in range(n)], [rng.choice(vals) for _ in range(n * m)],
+                            [0.25] * n, [7.0] * ((m + 1) * 7), [0.0] * 5])
+    return out
+
+
 def gen_ensrank(rng, tier):
     out = []
     vals = [0.0, 1.0, 2.0, 3.0]
@@ -586,6 +597,7 @@ def kernels(*names):
     tab = {(fn): (rel, fn, gen) for rel, fn, gen in ALL_KERNELS}
     tab['c_accumulate#acyclic'] = (GRID, 'c_accumulate#acyclic', gen_accumulate_acyclic)
     tab['c_inside#evenodd'] = (INSIDE, 'c_inside#evenodd', gen_inside_evenodd)
+    tab['c_crps#decomp'] = (CRPS, 'c_crps#decomp', gen_crps_decomp)
     return [tab[n] for n in names]
 
 
